@@ -119,6 +119,9 @@ func (s *Heatmap) WriteHeader(colNames ...string) (colCount int) {
 
 		name := colNames[i]
 		nameLen := color.StrLen(name)
+		if nameLen < 1 {
+			nameLen = 1 // an empty column name still occupies its column (and the loop must advance)
+		}
 
 		if i != 0 && i+nameLen+delimCount >= colCount {
 			// Too long, jump to last displayable key
